@@ -1,0 +1,44 @@
+//go:build verif
+
+// Verification hooks (build tag "verif" only): accessors for the unexported request
+// classification of delta xDS. No behaviour change; absent from normal builds.
+
+package xds
+
+import (
+	discovery "github.com/envoyproxy/go-control-plane/envoy/service/discovery/v3"
+
+	"istio.io/istio/pilot/pkg/model"
+	"istio.io/istio/pkg/util/sets"
+)
+
+// VerifNewConnection builds a bare SotW connection around a proxy and a stream.
+func VerifNewConnection(proxy *model.Proxy, stream DiscoveryStream) *Connection {
+	c := newConnection("verif", stream)
+	c.proxy = proxy
+	c.SetID(proxy.ID)
+	return c
+}
+
+// VerifNewDeltaConnection builds a bare delta connection around a proxy and a stream.
+func VerifNewDeltaConnection(proxy *model.Proxy, stream DeltaDiscoveryStream) *Connection {
+	c := newDeltaConnection("verif", stream)
+	c.proxy = proxy
+	c.SetID(proxy.ID)
+	return c
+}
+
+// VerifShouldRespondDelta exposes shouldRespondDelta.
+func VerifShouldRespondDelta(con *Connection, req *discovery.DeltaDiscoveryRequest) bool {
+	return shouldRespondDelta(con, req)
+}
+
+// VerifSendDelta exposes Connection.sendDelta.
+func VerifSendDelta(con *Connection, res *discovery.DeltaDiscoveryResponse, newResourceNames sets.String) error {
+	return con.sendDelta(res, newResourceNames)
+}
+
+// VerifDeltaWatchedResources exposes deltaWatchedResources.
+func VerifDeltaWatchedResources(existing sets.String, req *discovery.DeltaDiscoveryRequest) (sets.String, bool, bool) {
+	return deltaWatchedResources(existing, req)
+}
